@@ -5,9 +5,11 @@ import iv_fun_ops as IVF
 import iv_cgamma_ops  # noqa  (registers the gamma-family functions of iv.mpc in iv_fun_ops)
 
 LEVEL = "proof"
-LEAN_MODULES = ["Props.C14", "Props.C15", "Props.C14fun"]
+LEAN_MODULES = ["Props.C14", "Props.C15", "Props.C14fun", "Props.C15div", "Props.C15abs", "Props.C15pow"]
 ASSUMPTIONS = ["mpci_* arithmetic is modelled bit-exactly in Lean on top of the real interval operations whose containment is proved in Props/C14.lean "
-               "for finite endpoints; containment of the complex results is decided on sample points of the input rectangles in exact arithmetic",
+               "for finite endpoints; theorems: add/sub/neg/pos/mul, division (Props/C15div.lean, whenever the enclosure of |w|^2 is positive), modulus (Props/C15abs.lean, "
+               "over R with Real.sqrt), square and EVERY nonnegative integer power (Props/C15pow.lean, binary-powering loop invariant); containment of the complex results "
+               "is additionally decided on sample points of the input rectangles in exact arithmetic",
                "iv.mpc exp / log / cos / sin / abs / arg (and again mul / div) are NOT modelled: rectangles are SAMPLED (structured + steered "
                "generators, precisions 2..200); for each sample point z = x+iy the enclosure of the exact real and imaginary parts is built from "
                "verified REAL enclosures (Props/C14fun.lean) of exp, cos, sin, cosh, sinh, log, sqrt, atan, pi with exact dyadic / rational "
